@@ -1363,7 +1363,8 @@ def verify_before_map(crate, E):
                 neg = r[0] == "rv" and r[1]["k"] == "unop" and r[1]["op"] == "Not"
                 f_t, t_t = bool_switch_targets(st)
                 failing = t_t if neg else f_t
-                reach_fail = fa.reachable(failing)
+                from flow import reach_const as _rc
+                reach_fail = _rc(fa, failing)       # follows the Err that is built there through `?`
                 if (reach_fail & ok_b) or b in reach_fail:
                     continue
                 found = True
